@@ -533,8 +533,7 @@ var _ utils.PriorityQueue
 //@ requires [C08 full-read] false
 //@ end
 //@ at call binary.Read
-//@ scope uint32Val
-//@ set algo = ite(reads == 0, uint32Val, algo)
+//@ set algo = ite(reads == 0 && istype($arg2, *uint32), *($arg2.(*uint32)), algo)
 //@ set failedReads = ite(isnil($ret0), failedReads, failedReads + 1)
 //@ set reads = reads + 1
 //@ end
